@@ -154,6 +154,10 @@ def build_corpus(tier, rng):
                         Variant("Off", "named", [Field("std::marker::PhantomData<G0>", "m")], [DISABLED]), mk_variant("D", "unit", False)], repr=rp, tparams=1)
         it.targ = "NoDef"
         add(it, "unbounded-parameter")
+    # no variant carries data, but the enum has CONST parameters: from_repr is still a const fn
+    for rp in (None, "u8", "i32"):
+        add(Item("E", [mk_variant("Empty", "unit", False), mk_variant("Taken", "unit", False, 4), mk_variant("Off", "unit", True), mk_variant("Locked", "unit", False)],
+                 repr=rp, cparams=1), "const-generic")
     # generics (type and const parameters); FromRepr does not support lifetimes
     for rp in ([None, "u8", "i16", "u64"] if not thorough else REPRS):
         for mask in range(8):
@@ -190,7 +194,7 @@ def render_def(k, it, meta, cfg):
     discr_body = '"n/a".to_string()'
     if fieldless:
         discr_body = 'format!("[{}]", vec![%s].join(";"))' % ", ".join(
-            "(%s::%s as i128).to_string()" % (it.ident, v.ident) for v in it.variants)
+            "(%s::%s as i128).to_string()" % (E, v.ident) for v in it.variants)
     repr_body = '''
         match args[0] {
             "sweep" => {
